@@ -1,15 +1,16 @@
 /-
 C18 — a schema generated from a Go type accepts every JSON encoding of that type.
 Property theorems only. Model and spec: KinModel/Gen3.lean; helper lemmas and the relation `RelS`
-("schema s describes Go type t"): KinModel/Lemmas/C18.lean.
+("schema s describes Go type t"): KinModel/Lemmas/C18.lean, C18Gen.lean, C18Fin.lean.
 
-Full-strength statement (the property):
-    genRoot Δ all fuel t = (.ok s, σ) → IsChoice σ Γ → HasType Δ v t → encode Δ t v ≠ .null →
-      Sat Γ s (encode Δ t v)
-The code deviates in three classes, each with a kernel-checked witness below:
-    NilAtCycle (DESIGN §7 #19), HasQuoted (#32), DupNames (new).
+Full-strength statement (the property), for every option set `o`:
+    genRoot Δ o fuel t = (.ok s, σ) → LoopResult σ Γ → HasType Δ v t → encode Δ t v ≠ .null →
+      Sat Γ s (encode Δ t v) ∧ Resolves Γ s          and          ∃ fuel, (genRoot Δ o fuel t).1 ≠ .nofuel ∧ ≠ .diverge
+The code deviates in six classes, each with a kernel-checked witness below:
+    NilAtCycle (DESIGN §7 #19), HasQuoted (#32), DupNames, Dangling, WrongComponent, RecContainer (round 3).
 -/
-import KinModel.Lemmas.C18Gen
+import KinModel.Lemmas.C18Fin
+import KinModel.Gen.GenKinds
 namespace KinModel.Gen3
 
 /-- The executable oracle used by the driver is the specification: `acceptB` decides `Sat`. -/
@@ -17,7 +18,7 @@ theorem acceptB_iff (Γ : Comps) (s : Sch) (j : J) : acceptB Γ s j = true ↔ S
   acceptB_iff' Γ j s
 
 /-- Finding #19 is the only difference between the relaxed relation used in the proofs and `Sat`:
-away from `null` at cycle positions they coincide. -/
+away from `null` at reference / cycle positions they coincide. -/
 theorem sat_of_relaxed (Γ : Comps) (s : Sch) (j : J) (h : Sat' true Γ s j) (hn : ¬ NilAtCycle Γ s j) :
     Sat Γ s j := by
   apply sat_of_relaxed' Γ j s h
@@ -27,11 +28,13 @@ theorem sat_of_relaxed (Γ : Comps) (s : Sch) (j : J) (h : Sat' true Γ s j) (hn
 
 /-- **Encoder soundness (all types, all values).** If `s` describes the Go type `t` (relation `RelS`, which is
 what the generator establishes, see `gen_rel`), the components describe the declared structs they are named
-after and resolve, then the JSON that encoding/json produces for any value of type `t` satisfies `s` —
-outside the three recorded defect classes. No bound on nesting, pointers at any level, slices, maps,
-embedded structs, recursion through the declarations. -/
-theorem encode_sound_partial (Δ : Decls) (Γ : Comps) (t : GoType) (s : Sch) (v : GoVal)
-    (hΓ : CompsOK Δ Γ) (hrel : RelS Δ (okΓ Γ) t s) (hv : HasType Δ v t)
+after (under an injective type-name generator) and resolve, then the JSON that encoding/json produces for any value
+of type `t` satisfies `s` — outside the three recorded defect classes of the encoder/field-discovery pair. No bound
+on nesting; pointers at any level, slices, maps, arrays, defined types over every kind (a slice of a defined uint8
+type is base64 text), embedded structs and embedded defined types, yaml-named properties, recursion through the
+declarations. -/
+theorem encode_sound_partial (Δ : Decls) (tn : String → String) (Γ : Comps) (t : GoType) (s : Sch) (v : GoVal)
+    (hΓ : CompsOK Δ tn Γ) (hinj : TnInj Δ tn) (hrel : RelS Δ tn (okΓ Γ) t s) (hv : HasType Δ v t)
     (hq : ¬ HasQuoted Δ t) (hd : ¬ DupNames Δ t) (hn : ¬ NilAtCycle Γ s (encode Δ t v)) :
     Sat Γ s (encode Δ t v) := by
   have hq' : heredAll quotedIn Δ t = false := by
@@ -39,47 +42,113 @@ theorem encode_sound_partial (Δ : Decls) (Γ : Comps) (t : GoType) (s : Sch) (v
   have hd' : heredAll dupIn Δ t = false := by
     cases h : heredAll dupIn Δ t with | false => rfl | true => exact absurd h hd
   obtain ⟨c1, c2⟩ := clean2 hq' hd'
-  exact sat_of_relaxed Γ s _ (sound_val Δ Γ hΓ c2 v t s hv c1 hrel) hn
+  exact sat_of_relaxed Γ s _ (sound_val Δ tn Γ hΓ hinj c2 v t s hv c1 hrel) hn
 
-/-- **The generator establishes the relation (all types, all fuel).** Whatever `GenerateSchemaRef` returns for a
-type describes its pointer-stripped type, and every schema it recorded under a declared struct's name — the
-candidates for the component map — describes that struct. Proved through the type table (`g.Types`, keyed by
-the type including pointer-ness), the parent chain and cycle cutting, field discovery and name-ordered property
-insertion. `σ.anon = false`: no cycle was cut at a type whose spine does not end in a declared struct (ghost
-flag; the driver reports it, the harness never produces it). -/
-theorem gen_rel (Δ : Decls) (all : Bool) (fuel : Nat) (t : GoType) (s : Sch) (σ : St)
-    (hg : genRoot Δ all fuel t = (.ok s, σ)) (ha : σ.anon = false) :
-    RelS Δ (okσ σ) (stripPtr t) s ∧
-    ∀ n s', s' ∈ candidatesFor σ n → RelS Δ (okσ σ) (.named n) s' := by
-  have hi : Inv Δ {} := ⟨fun _ _ h => (by cases h), fun _ _ h => (by cases h)⟩
-  have h := (gen_good Δ all fuel).1 [] t {} hi
+/-- **The generator establishes the relation (all types, all option sets, all fuel).** Whatever `GenerateSchemaRef`
+returns for a type describes its pointer-stripped type, and every schema it recorded for the export loop describes
+the declared struct whose Go name it carries and refers to registered names only. Proved through the type table
+(`g.Types`, keyed by the type including pointer-ness, bypassed under a SchemaCustomizer), the parent chain and cycle
+cutting, field discovery and name-ordered property insertion, the customizer's three outcomes, ThrowErrorOnCycle,
+component export with generated names. `σ.anon = false`: no component name was registered for a type that is not a
+declared struct (ghost flag; part of `WrongComponent`). -/
+theorem gen_rel (Δ : Decls) (o : Opts) (fuel : Nat) (t : GoType) (s : Sch) (σ : St)
+    (hg : genRoot Δ o fuel t = (.ok s, σ)) (ha : σ.anon = false) :
+    RelS Δ (typeName o) (okσ σ) (stripPtr t) s ∧ ∀ e, e ∈ σ.refs → RefGood Δ o σ e := by
+  have hi : Inv Δ o {} := ⟨fun _ _ h => (by cases h), fun _ h => (by cases h)⟩
+  have h := (gen_good Δ o fuel).1 [] "_root" t {} hi
   unfold genRoot at hg
   rw [hg] at h
   obtain ⟨h1, _, h3⟩ := h ha
-  exact ⟨h3 s rfl, fun n s' hm => h1 n s' (mem_candidatesFor hm)⟩
+  exact ⟨h3 s rfl, h1⟩
 
-/-- **C18 main theorem (partial).** For every declaration list, every Go type of the supported kinds, both option
-settings, every value of the type that does not encode as `null`, and every component map the export loop can
-produce in which the registered names are present: the JSON produced by encoding/json satisfies the generated
-schema — unless the type uses the `,string` option (#32), two discovered fields of one struct share a JSON
-name (new finding), or a `null` meets a position produced by cycle cutting (#19).
-Not proved here (checked on every case by the differential run): that enough fuel exists (`gen_finite`) and
-that the export loop fills every registered name (`Complete`, i.e. `gen_refs_resolve`). -/
-theorem gen_sound_partial (Δ : Decls) (all : Bool) (fuel : Nat) (t : GoType) (s : Sch) (σ : St) (Γ : Comps) (v : GoVal)
-    (hg : genRoot Δ all fuel t = (.ok s, σ)) (ha : σ.anon = false)
-    (hch : IsChoice σ Γ) (hco : Complete σ Γ)
+/-- **"References resolve within the component map supplied by the caller"** — for every type, option set and
+outcome of the export loop: every `$ref` in the generated schema and in every stored component names a stored
+component. Fails only when a registered name has no candidate (`Dangling`, finding F-C18-4) or a component name was
+registered for an anonymous type (`σ.anon`, part of F-C18-5). -/
+theorem gen_refs_resolve (Δ : Decls) (o : Opts) (fuel : Nat) (t : GoType) (s : Sch) (σ : St) (Γ : Comps)
+    (hg : genRoot Δ o fuel t = (.ok s, σ)) (ha : σ.anon = false) (hl : LoopResult σ Γ) (hd : ¬ Dangling σ) :
+    Resolves Γ s := by
+  obtain ⟨hr, hc⟩ := gen_rel Δ o fuel t s σ hg ha
+  have hd' : danglingB σ = false := by
+    cases h : danglingB σ with | false => rfl | true => exact absurd h hd
+  have hco := complete_of_loop hl hd'
+  have hres : ∀ n, okσ σ n → (resolve Γ (.ref n)).isSome = true := by
+    intro n hn
+    obtain ⟨nd, hnd⟩ := okΓ_of_complete hco n hn
+    simp [hnd]
+  refine ⟨fun n hn => hres n (relS_refNames _ _ hr n hn), ?_⟩
+  intro k c hk n hn
+  obtain ⟨_, g, hmem⟩ := mem_candidatesFor (hl.1 k c hk).2
+  exact hres n ((hc _ hmem).2 n hn)
+
+/-- **C18 main theorem (partial).** For every declaration list, every Go type of the supported kinds, every option
+set (UseAllExportedFields, ThrowErrorOnCycle, SchemaCustomizer outcomes, CreateComponentSchemas with its three flags,
+CreateTypeNameGenerator injective on the declared names), every value of the type that does not encode as `null`,
+and every component map the export loop can produce: the JSON produced by encoding/json satisfies the generated
+schema — unless the type uses the `,string` option (#32), two discovered fields of one struct share a name, a `null`
+meets a reference / cycle position (#19), a registered component has no schema (`Dangling`) or may receive the
+schema of another type (`WrongComponent`). -/
+theorem gen_sound_partial (Δ : Decls) (o : Opts) (fuel : Nat) (t : GoType) (s : Sch) (σ : St) (Γ : Comps) (v : GoVal)
+    (hg : genRoot Δ o fuel t = (.ok s, σ)) (hinj : TnInj Δ (typeName o))
+    (hl : LoopResult σ Γ) (hdg : ¬ Dangling σ) (hw : ¬ WrongComponent o σ)
     (hv : HasType Δ v t) (hnn : encode Δ t v ≠ .null)
     (hq : ¬ HasQuoted Δ t) (hd : ¬ DupNames Δ t) (hn : ¬ NilAtCycle Γ s (encode Δ t v)) :
     Sat Γ s (encode Δ t v) := by
-  obtain ⟨hr, hc⟩ := gen_rel Δ all fuel t s σ hg ha
+  have hw' : wrongCandB o σ = false := by
+    cases h : wrongCandB o σ with | false => rfl | true => exact absurd h hw
+  have ha : σ.anon = false := by
+    simp only [wrongCandB, Bool.or_eq_false_iff] at hw'; exact hw'.1
+  have hd' : danglingB σ = false := by
+    cases h : danglingB σ with | false => rfl | true => exact absurd h hdg
+  obtain ⟨hr, hc⟩ := gen_rel Δ o fuel t s σ hg ha
+  have hco := complete_of_loop hl hd'
   have hmono := okΓ_of_complete hco
   obtain ⟨v', hv', he⟩ := strip_value Δ v t hv hnn
-  have hΓ : CompsOK Δ Γ := by
-    intro n s' hl
-    exact relS_mono hmono s' _ (hc n s' (hch n s' hl).2)
+  have hΓ : CompsOK Δ (typeName o) Γ := by
+    intro m s' hlk
+    obtain ⟨hcm, hcand⟩ := hl.1 m s' hlk
+    obtain ⟨hp, n, hmem⟩ := mem_candidatesFor hcand
+    obtain ⟨hne, htn⟩ := wrong_false hw' hmem hcm hp
+    have hrel := (hc _ hmem).1 hne
+    exact ⟨n, htn, declared_of_props hrel hp, relS_mono hmono s' _ hrel⟩
   rw [← he] at hn ⊢
-  exact encode_sound_partial Δ Γ (stripPtr t) s v' hΓ (relS_mono hmono s _ hr) hv'
+  exact encode_sound_partial Δ (typeName o) Γ (stripPtr t) s v' hΓ hinj (relS_mono hmono s _ hr) hv'
     (by unfold HasQuoted at hq ⊢; rwa [heredAll_strip]) (by unfold DupNames at hd ⊢; rwa [heredAll_strip]) hn
+
+/-- **"Schemas generated for recursive types are finite"** — the generator terminates on every type graph, for every
+option set: with `enoughFuel Δ t` fuel (a bound computed from the declarations: along the parent chain every declared
+struct is entered at most once; between two declared structs the recursion descends into the type) the model never
+runs out of fuel, and it never reports `diverge` (generateCycleSchemaRef recursing forever, a fatal stack overflow in
+Go) unless the type contains a self-recursive container type `type L []L` / `type M map[string]M` (`RecContainer`,
+finding F-C18-6, witness below). No hypothesis on the declarations: cyclic, mutually recursive, undeclared names. -/
+theorem gen_finite (Δ : Decls) (o : Opts) (t : GoType) (fuel : Nat) (h : enoughFuel Δ t ≤ fuel) :
+    (genRoot Δ o fuel t).1 ≠ .nofuel ∧ (¬ RecContainer Δ t → (genRoot Δ o fuel t).1 ≠ .diverge) :=
+  ⟨gen_enough_fuel Δ o t fuel h, fun hr => gen_no_diverge Δ o t hr fuel⟩
+
+/-! ### the tables read off the source (regenerated by every run: go/cmd/extract, table GenKinds) -/
+
+/-- the translator could read every case of the kind switch, every tag access and the option structs -/
+theorem gen_tables_read : Gen.genUnrecognised = [] := by decide
+
+/-- the kind switch of generateWithoutSaving — type, format, minimum, maximum per kind, the bounds resolved from the
+package's constants (`float64(math.MaxUint64)` is 2^64) — is the model's table … -/
+theorem genKinds_is_model : Gen.genKinds = modelKinds := by decide
+
+/-- … and that table is what the model's `genBody` produces for each of these kinds -/
+theorem modelKinds_is_genBody (r : GoType × String × String × String × Option Int × Option Int) (hr : r ∈ modelKindsT)
+    (nl : Bool) : (genBody [] {} 1 [] true "_root" nl r.1 {}).1 = .ok (leaf r.2.2.1 nl r.2.2.2.1 r.2.2.2.2.1 r.2.2.2.2.2) := by
+  simp only [modelKindsT, allIntKinds, List.map, List.cons_append, List.nil_append, List.mem_cons, List.not_mem_nil, or_false] at hr
+  rcases hr with rfl | rfl | rfl | rfl | rfl | rfl | rfl | rfl | rfl | rfl | rfl | rfl | rfl | rfl <;> rfl
+
+/-- the kinds with code of their own are the ones modelled by hand (Func/Chan are outside the supported kinds) -/
+theorem genKindsOther_is_model : Gen.genKindsOther = modelKindsOther := by decide
+
+/-- the struct tags openapi3gen reads (`json` in appendFields, `yaml` in the struct loop under UseAllExportedFields) and
+the `json` options it recognises are the ones in the model (`FMeta`) -/
+theorem genTags_is_model : Gen.genTagKeys.map (·.2.1) = modelTagKeys ∧ Gen.genTagOptions = modelTagOptions := by decide
+
+/-- the option set of the generator is the one in the model (`Opts`) -/
+theorem genOpts_is_model : Gen.genOptFields = modelOptFields := by decide
 
 /-- The integer bounds table admits every value of the kind (all ten kinds, extremes included). -/
 theorem int_bounds_admit (k : IntKind) (n : Int) (h : inRange k n = true) :
@@ -95,10 +164,67 @@ theorem int_bounds_exact (k : IntKind) (n : Int) (hk : k ≠ .int ∧ k ≠ .uin
   cases k <;>
     simp [NumOK, GeOpt, LeOpt, fmtLo, fmtHi, kindFmt, kindLo, kindHi, intLo, intHi] at h hk ⊢ <;> omega
 
+/-- The validator's `int64` format check (`f.Validate(int64(value))`, which cannot reject a float64 beyond ±2^63) and
+the exact reading used by `Sat` agree on every integer of the int64 range — in particular on every encoding of an
+`int`/`int64` value; the differential run compares with the validator as built. -/
+theorem int64_format_exact_in_range (ty : String) (lo hi : Option Int) (n : Int)
+    (h : -9223372036854775808 ≤ n ∧ n ≤ 9223372036854775807) :
+    NumOK ty "int64" lo hi n 0 ↔ NumOK ty "" lo hi n 0 := by
+  obtain ⟨h1, h2⟩ := h
+  simp only [NumOK, GeOpt, LeOpt, fmtLo, fmtHi]
+  constructor
+  · rintro ⟨h3, h4⟩
+    refine ⟨?_, h4⟩
+    rcases h3 with h3 | h3 | ⟨h3, h5, _, _⟩
+    · exact Or.inl h3
+    · exact Or.inr (Or.inl h3)
+    · exact Or.inr (Or.inr ⟨h3, h5, by simp, by simp⟩)
+  · rintro ⟨h3, h4⟩
+    refine ⟨?_, h4⟩
+    rcases h3 with h3 | h3 | ⟨h3, h5, _, _⟩
+    · exact Or.inl h3
+    · exact Or.inr (Or.inl h3)
+    · refine Or.inr (Or.inr ⟨h3, h5, ?_, ?_⟩)
+      · intro l hl; simp at hl; subst hl; omega
+      · intro l hl; simp at hl; subst hl; omega
+
+/-- the check the driver performs on a case implies the injectivity hypothesis of `gen_sound_partial` -/
+theorem tnInj_of_check (Δ : Decls) (o : Opts) (h : dupNames (Δ.map (fun d => typeName o d.1)) = false) :
+    TnInj Δ (typeName o) := by
+  intro a b ha hb hab
+  have mem : ∀ {l : List (String × Fields)} {k}, (lookup k l).isSome = true → ∃ v, (k, v) ∈ l := by
+    intro l k hk
+    cases hl : lookup k l with
+    | none => simp [hl] at hk
+    | some v => exact ⟨v, lookup_mem hl⟩
+  obtain ⟨x, hx⟩ := mem ha
+  obtain ⟨y, hy⟩ := mem hb
+  clear ha hb
+  induction Δ with
+  | nil => cases hx
+  | cons d r ih =>
+    have e : dupNames ((d :: r).map (fun d => typeName o d.1)) =
+        ((r.map (fun d => typeName o d.1)).contains (typeName o d.1) || dupNames (r.map (fun d => typeName o d.1))) := rfl
+    rw [e] at h
+    obtain ⟨h1, h2⟩ := Bool.or_eq_false_iff.mp h
+    have hnot : ∀ k v, (k, v) ∈ r → typeName o k ≠ typeName o d.1 := by
+      intro k v hm he
+      have : (r.map (fun d => typeName o d.1)).contains (typeName o d.1) = true := by
+        simp only [List.contains_eq_mem, List.mem_map, decide_eq_true_eq]
+        exact ⟨(k, v), hm, he⟩
+      rw [this] at h1; cases h1
+    rcases List.mem_cons.mp hx with e1 | hx'
+    · rcases List.mem_cons.mp hy with e2 | hy'
+      · rw [← e1] at e2; exact (Prod.mk.inj e2).1.symm
+      · exact absurd (by rw [← hab, ← e1]) (hnot b y hy')
+    · rcases List.mem_cons.mp hy with e2 | hy'
+      · exact absurd (by rw [hab, ← e2]) (hnot a x hx')
+      · exact ih h2 hx' hy'
 
 /-! ### witnesses (kernel-checked on the model; the same inputs are in corpus/C18 and replayed on the Go code) -/
 
 def tagF (go tag : String) : FMeta := { goName := go, hasTag := true, tagName := tag }
+def o0 : Opts := {}
 
 /-- `type Node struct { Next *Node `json:"next"` }` -/
 def ΔNode : Decls := [("Node", [(tagF "Next" "next", .ptr (.named "Node"))])]
@@ -107,8 +233,8 @@ def sNode : Sch := .node "object" false "" none none none [("next", .ref "Node")
 /-- Finding #19: the generator's output for `Node` (root and component), the value `Node{}`, its encoding
 `{"next":null}`: in the domain, inside `NilAtCycle`, and rejected. -/
 theorem witness_nil_at_cycle :
-    (genRoot ΔNode false 10 (.named "Node")).1 = .ok sNode ∧
-    candidatesFor (genRoot ΔNode false 10 (.named "Node")).2 "Node" = [sNode] ∧
+    (genRoot ΔNode o0 10 (.named "Node")).1 = .ok sNode ∧
+    candidatesFor (genRoot ΔNode o0 10 (.named "Node")).2 "Node" = [sNode] ∧
     HasType ΔNode (.struct [.nil]) (.named "Node") ∧
     encode ΔNode (.named "Node") (.struct [.nil]) = .obj [("next", .null)] ∧
     NilAtCycle [("Node", sNode)] sNode (.obj [("next", .null)]) ∧
@@ -119,19 +245,19 @@ theorem witness_nil_at_cycle :
 demands an integer. -/
 def tQuoted : GoType := .struct [({ goName := "N", hasTag := true, tagName := "n", quoted := true }, .int .int)]
 theorem witness_quoted :
-    (genRoot [] false 10 tQuoted).1 = .ok (.node "object" false "" none none none [("n", leaf "integer" false "" none none)] none false) ∧
+    (genRoot [] o0 10 tQuoted).1 = .ok (.node "object" false "" none none none [("n", leaf "integer" false "" none none)] none false) ∧
     HasType [] (.struct [.i 5]) tQuoted ∧ HasQuoted [] tQuoted ∧
     encode [] tQuoted (.struct [.i 5]) = .obj [("n", .str "5")] ∧
     acceptB [] (.node "object" false "" none none none [("n", leaf "integer" false "" none none)] none false)
       (.obj [("n", .str "5")]) = false := by
   refine ⟨by rfl, by decide, by decide, by rfl, by decide⟩
 
-/-- New finding: `struct { X string `json:"x"`; Inner }` with `Inner struct { X int `json:"x"` }`:
+/-- Finding F-C18-3: `struct { X string `json:"x"`; Inner }` with `Inner struct { X int `json:"x"` }`:
 encoding/json keeps the outer field (`{"x":"a"}`), the generator keeps the embedded one (integer). -/
 def tDup : GoType := .struct [(tagF "X" "x", .string),
   ({ goName := "Inner", embedded := true }, .struct [(tagF "X" "x", .int .int)])]
 theorem witness_dup_names :
-    (genRoot [] false 10 tDup).1 = .ok (.node "object" false "" none none none [("x", leaf "integer" false "" none none)] none false) ∧
+    (genRoot [] o0 10 tDup).1 = .ok (.node "object" false "" none none none [("x", leaf "integer" false "" none none)] none false) ∧
     HasType [] (.struct [.s "a", .struct [.i 1]]) tDup ∧ DupNames [] tDup ∧
     encode [] tDup (.struct [.s "a", .struct [.i 1]]) = .obj [("x", .str "a")] ∧
     acceptB [] (.node "object" false "" none none none [("x", leaf "integer" false "" none none)] none false)
@@ -143,23 +269,101 @@ two candidates, one nullable and one not; with the first `{"next":null}` below t
 with the second it is rejected. -/
 def tBoth : GoType := .struct [(tagF "A" "a", .named "Node"), (tagF "B" "b", .ptr (.named "Node"))]
 theorem witness_component_choice :
-    (candidatesFor (genRoot ΔNode false 10 tBoth).2 "Node").map
+    (candidatesFor (genRoot ΔNode o0 10 tBoth).2 "Node").map
       (fun s => match s with | .node _ nl _ _ _ _ _ _ _ => nl | _ => false) = [true, false] := by
   decide
 
-/-! ### non-vacuity: a recursive type, a value with a non-nil and a nil pointer outside every exclusion class -/
+/-- Finding F-C18-4 (a): with `CreateTypeNameGenerator(t => "X_" + t.Name())` and no export the cycle reference
+of `Node` names `X_Node`; the struct itself is looked up under `Node`: the only possible component map is empty and
+`#/components/schemas/X_Node` does not resolve. -/
+def oNames : Opts := { tng := some ⟨"X_", []⟩ }
+theorem witness_dangling_names :
+    (genRoot ΔNode oNames 10 (.named "Node")).1 =
+      .ok (.node "object" false "" none none none [("next", .ref "X_Node")] none false) ∧
+    (genRoot ΔNode oNames 10 (.named "Node")).2.comps = ["X_Node"] ∧
+    candidatesFor (genRoot ΔNode oNames 10 (.named "Node")).2 "X_Node" = [] ∧
+    Dangling (genRoot ΔNode oNames 10 (.named "Node")).2 ∧
+    (resolve [] (.ref "X_Node")).isSome = false := by
+  refine ⟨by rfl, by rfl, by rfl, by decide, by rfl⟩
 
-/-- `type T struct { Kids []*T `json:"kids"`; N int8 `json:"n"` }` with `T{Kids: {&T{Kids: {}, N: -128}}, N: 127}` -/
+/-- Finding F-C18-4 (c): `type Empty struct{}`, `type H struct { E Empty `json:"e"` }` with ExportComponentSchemas:
+`Empty` is registered and referenced but has no properties, so the export loop never stores it. -/
+def ΔEmpty : Decls := [("Empty", []), ("H", [(tagF "E" "e", .named "Empty")])]
+def oExport : Opts := { exp := true }
+theorem witness_dangling_empty :
+    (genRoot ΔEmpty oExport 10 (.named "H")).1 =
+      .ok (.node "object" false "" none none none [("e", .ref "Empty")] none false) ∧
+    (genRoot ΔEmpty oExport 10 (.named "H")).2.comps = ["Empty"] ∧
+    Dangling (genRoot ΔEmpty oExport 10 (.named "H")).2 := by
+  refine ⟨by rfl, by rfl, by decide⟩
+
+/-- Finding F-C18-5 (a): `type A struct { B *B `json:"b"`; V int32 `json:"v"` }`, `type B struct { A *A `json:"a"`;
+V string `json:"v"` }` with ExportComponentSchemas: the cycle reference created in B's field loop carries B's schema
+and is a candidate for component `A`; with that choice the encoding of `A{B: &B{A: &A{V: 1}, V: "x"}, V: 2}` is
+rejected (`/b/a/v` must be a string). -/
+def ΔAB : Decls := [("A", [(tagF "B" "b", .ptr (.named "B")), (tagF "V" "v", .int .int32)]),
+                    ("B", [(tagF "A" "a", .ptr (.named "A")), (tagF "V" "v", .string)])]
+def sA : Sch := .node "object" false "" none none none [("b", .ref "B"), ("v", leaf "integer" false "int32" none none)] none false
+def sB : Sch := .node "object" true "" none none none [("a", .ref "A"), ("v", leaf "string" false "" none none)] none false
+def vAB : GoVal := .struct [.ref (.struct [.ref (.struct [.nil, .i 1]), .s "x"]), .i 2]
+theorem witness_wrong_component :
+    (genRoot ΔAB oExport 12 (.named "A")).1 = .ok sA ∧
+    candidatesFor (genRoot ΔAB oExport 12 (.named "A")).2 "A" = [sA, sB] ∧
+    WrongComponent oExport (genRoot ΔAB oExport 12 (.named "A")).2 ∧
+    HasType ΔAB vAB (.named "A") ∧
+    acceptB [("A", sA), ("B", sB)] sA (encode ΔAB (.named "A") vAB) = true ∧
+    acceptB [("A", sB), ("B", sB)] sA (encode ΔAB (.named "A") vAB) = false := by
+  refine ⟨by rfl, by rfl, by decide, by decide, by decide, by decide⟩
+
+/-- Finding F-C18-6: on `type L []L` generateCycleSchemaRef never returns (in Go: fatal stack overflow), whatever
+the fuel; with ThrowErrorOnCycle the generator returns the cycle error instead. -/
+theorem witness_rec_container :
+    (∀ fuel, 3 ≤ fuel → (genRoot [] o0 fuel (.recs false)).1 = .diverge) ∧
+    RecContainer [] (.recs false) ∧ HasType [] (.slice [.slice [], .slice []]) (.recs false) ∧
+    (genRoot [] { throwCycle := true } 10 (.recs false)).1 = .cycle := by
+  refine ⟨?_, by decide, by decide, by rfl⟩
+  intro fuel h
+  obtain ⟨k, rfl⟩ : ∃ k, fuel = k + 3 := ⟨fuel - 3, by omega⟩
+  rfl
+
+/-! ### non-vacuity -/
+
+/-- `type T struct { Kids []*T `json:"kids"`; N int8 `json:"n"` }` with `T{Kids: {&T{Kids: {}, N: -128}}, N: 127}`:
+a recursive type, a value with a non-nil and a nil pointer outside every exclusion class -/
 def ΔKids : Decls := [("T", [(tagF "Kids" "kids", .slice (.ptr (.named "T"))), (tagF "N" "n", .int .int8)])]
 def vKids : GoVal := .struct [.slice [.ref (.struct [.slice [], .i (-128)])], .i 127]
 def sKids : Sch := .node "object" false "" none none none
   [("kids", .node "array" false "" none none (some (.ref "T")) [] none false),
    ("n", leaf "integer" false "" (some (-128)) (some 127))] none false
 
-example : (genRoot ΔKids false 12 (.named "T")).1 = .ok sKids ∧
+example : (genRoot ΔKids o0 12 (.named "T")).1 = .ok sKids ∧
     HasType ΔKids vKids (.named "T") ∧ ¬ HasQuoted ΔKids (.named "T") ∧ ¬ DupNames ΔKids (.named "T") ∧
+    ¬ Dangling (genRoot ΔKids o0 12 (.named "T")).2 ∧ ¬ WrongComponent o0 (genRoot ΔKids o0 12 (.named "T")).2 ∧
     ¬ NilAtCycle [("T", sKids)] sKids (encode ΔKids (.named "T") vKids) ∧
     acceptB [("T", sKids)] sKids (encode ΔKids (.named "T") vKids) = true := by
-  refine ⟨by rfl, by decide, by decide, by decide, by decide, by decide⟩
+  refine ⟨by rfl, by decide, by decide, by decide, by decide, by decide, by decide, by decide⟩
+
+/-- the same type under CreateComponentSchemas{Export, TopLevel} and a prefixing type-name generator: the root is a
+reference to `X_T`, which the export loop fills; outside every exclusion class, accepted -/
+def oAll : Opts := { exp := true, expTop := true, tng := some ⟨"X_", []⟩ }
+def sKidsX : Sch := .node "object" false "" none none none
+  [("kids", .node "array" false "" none none (some (.ref "X_T")) [] none false),
+   ("n", leaf "integer" false "" (some (-128)) (some 127))] none false
+example : (genRoot ΔKids oAll 12 (.named "T")).1 = .ok (.ref "X_T") ∧
+    candidatesFor (genRoot ΔKids oAll 12 (.named "T")).2 "X_T" = [sKidsX] ∧
+    TnInj ΔKids (typeName oAll) ∧
+    ¬ Dangling (genRoot ΔKids oAll 12 (.named "T")).2 ∧ ¬ WrongComponent oAll (genRoot ΔKids oAll 12 (.named "T")).2 ∧
+    ¬ NilAtCycle [("X_T", sKidsX)] (.ref "X_T") (encode ΔKids (.named "T") vKids) ∧
+    acceptB [("X_T", sKidsX)] (.ref "X_T") (encode ΔKids (.named "T") vKids) = true := by
+  refine ⟨by rfl, by rfl, tnInj_of_check _ _ (by decide), by decide, by decide, by decide, by decide⟩
+
+/-- a slice of a DEFINED uint8 type (`type Octet uint8; []Octet`) is base64 text for encoding/json and a
+`string`/`byte` schema for the generator; so is a defined slice type over it -/
+def tOctets : GoType := .slice (.defd "Octet" (.int .uint8))
+example : (genRoot [] o0 10 tOctets).1 = .ok (leaf "string" false "byte" none none) ∧
+    (genRoot [] o0 10 (.defd "Octets" tOctets)).1 = .ok (leaf "string" false "byte" none none) ∧
+    HasType [] (.bytes "AQID") tOctets ∧ ¬ HasType [] (.slice [.i 1]) tOctets ∧
+    acceptB [] (leaf "string" false "byte" none none) (encode [] tOctets (.bytes "AQID")) = true := by
+  refine ⟨by rfl, by rfl, by decide, by decide, by decide⟩
 
 end KinModel.Gen3
